@@ -51,7 +51,8 @@ RULE = ("generated Python programs: every single-return helper body of a typed g
         "(bound methods of objects with state, classmethods, functools.wraps / lru_cache decorated functions, a decorator without "
         "wraps (oracle only), helpers with := in body, default value or nested lambda) x 27 call shapes x 5 parameter names x "
         "nesting; helpers whose inner call is left by the FC4 bail-out, called with variables named like their parameters, "
-        "permuted or inside expressions (substitution happens once); non-trivial = python computed a value "
+        "permuted or inside expressions (substitution happens once); helpers whose comprehensions (list/set/dict/generator, two "
+        "clauses) have nested tuple / list / starred targets x argument names equal to each target name; non-trivial = python computed a value "
         "that was compared with the recorded lambda's; distinct by program text")
 
 
@@ -379,6 +380,45 @@ def resubstitution(ctx):
     return out
 
 
+# FC4 with unpacking targets: every name a comprehension target binds - also inside nested tuples / lists and starred
+# elements - is an inner binder; an argument that mentions one must stop the substitution
+UNPACK_HELPERS = [
+    ("wn", ["k", "rows"], "[k * a + b + c for (a, b), c in rows]", "def"),
+    ("wsq", ["k", "rows"], "[k * a + b + c for [a, b], c in rows]", "def"),
+    ("wdeep", ["k", "rows"], "[k + a + b + c + r for ((a, b), c), r in [(x, 1) for x in rows]]", "def"),
+    ("wstar", ["k", "rows"], "[k + a + sum(r) for (a, *r), c in rows]", "def"),
+    ("wflatstar", ["k", "rows"], "[k + len(c) + sum(r) for c, *r in rows]", "def"),
+    ("wdict", ["k", "rows"], "{a: k * b for (a, c), b in rows}", "def"),
+    ("wset", ["k", "rows"], "sorted({k * a + b for (a, b), c in rows})", "def"),
+    ("wgen", ["k", "rows"], "sum(k * a + b + c for (a, b), c in rows)", "doc"),
+    ("wtwo", ["k", "rows"], "[k + a + r for (a, b), c in rows for r in (b, c)]", "def"),
+    ("wflat", ["k", "rows"], "[k * a + b for a, b in rows]", "def"),
+    ("wtot", ["k", "rows"], "sum(wn(k, rows)) + sum(wstar(k, rows))", "def"),
+]
+UNPACK_NAMES = ["a", "b", "c", "r", "k", "e"]
+UNPACK_ROWS = "[((1, 2), 3), ((4, {P}.b), 6)]"
+UNPACK_TEMPLATES = [
+    "lambda {P}: {H}({P}.a, ROWS)", "lambda {P}: {H}({P}.a + 1, ROWS)", "lambda {P}: {H}(2, ROWS)",
+    "lambda e: e.jets.Select(lambda {P}: {H}({P}.pt, [((1, 2), {P}.x)]))", "lambda {P}: [{H}({P}.a, [((1, 2), 3)]) for {P} in {P}.jets]",
+    "lambda {P}: (lambda {Q}: {H}({Q}, ROWS))({P}.a)",
+]
+
+
+def unpacking_targets(ctx):
+    out = []
+    for t in UNPACK_TEMPLATES:
+        for h in UNPACK_HELPERS:
+            for p in UNPACK_NAMES:
+                for q in (UNPACK_NAMES[:4] if "{Q}" in t else [""]):
+                    if q == p:
+                        continue
+                    rows = UNPACK_ROWS.format(P=p) if h[0] != "wflat" else "[(1, 2), (4, %s.b)]" % p
+                    lam = t.replace("ROWS", rows).format(P=p, Q=q, H=h[0])
+                    hs = [g for g in UNPACK_HELPERS if g[0] == h[0] or g[0] in names_of(h[2])]
+                    out.append(mk(lam, hs, 1, {"unpacking-target"}, group="unpacking-target"))
+    return out
+
+
 def f30_f31_witnesses():
     return [mk("lambda e: h(*e.xs)", [("h", ["a"], "a + 1", "def")], tags={"F30", "starred"}, group="corpus"),
             mk("lambda e: mk(e.off)", [("mk", ["k"], "lambda j, k=k: j + k", "def")], tags={"F31", "defaults-of-staying-lambda"}, group="corpus")] + \
@@ -414,6 +454,8 @@ def starred_and_defaults(ctx):
 
 def corpus():
     out = f34_f36_witnesses() + f30_f31_witnesses()
+    out.append(mk("lambda a: wn(a.a, [((1, 2), 3), ((4, a.b), 6)])", [("wn", ["k", "rows"], "[k * a + b + c for (a, b), c in rows]", "def")],
+                  tags={"FC4", "unpacking-target"}, group="corpus"))
     out.append(mk("lambda e: h(e.x)", [("h", ["p"], "p", "def")], tags={"F06"}, group="corpus"))
     out.append(mk("lambda e: (lambda a, b: a + (lambda a: a)(b))(e.x, e.y)", [], tags={"F06"}, group="corpus"))
     out.append(mk("lambda e: h(e)", [("h", ["a"], "a.jets.Select(lambda a: a.pt)", "def")], tags={"F07"}, group="corpus"))
@@ -620,7 +662,7 @@ def inlinable_left_by_name(case: Case, tree) -> list:
 
 
 def run(ctx):
-    cs = corpus() + starred_and_defaults(ctx) + stays_by_name(ctx) + resubstitution(ctx) + second_call_cases() + higher_order(ctx) + structured(ctx)
+    cs = corpus() + starred_and_defaults(ctx) + stays_by_name(ctx) + resubstitution(ctx) + unpacking_targets(ctx) + second_call_cases() + higher_order(ctx) + structured(ctx)
     en = enumerated(ctx)
     cap = ctx.budget(3000, 60000)
     if len(en) > cap:
